@@ -409,4 +409,39 @@ def parseCommand : Nat → CmdParser
 def parseProgram (cs : List Char) : Option (List Item × List Char) :=
   parseCompoundList (parseCommand (cs.length + 2)) (cs.length + 2) cs
 
+/-! ## Command lines (the entry point of the shell's read-eval loop) -/
+
+/-- `Parser::command_line` (`list.rs`): a list up to the newline that ends the line, or up to the end of
+    input (`error_type_for_trailing_token_in_command_line` answers `None` for `EndOfInput` only — see
+    `commandLine_trailing_table`).  `some (none, _)` = `Ok(None)` (end of input with nothing read); the outer
+    `none` is a syntax error.  Here-document bodies are not modelled. -/
+def parseCommandLine (pc : CmdParser) (cs : List Char) : Option (Option (List Item) × List Char) :=
+  match parseList pc (cs.length + 2) cs with
+  | none => none
+  | some (items, r) =>
+    match lexToken r with
+    | none => none
+    | some (t, r') =>
+      if t.isOp .newline then some (some items, r')            -- `newline_and_here_doc_contents`
+      else if t.id = .endOfInput then
+        if items.isEmpty then some (none, r) else some (some items, r)
+      else none                                                -- the trailing-token error
+
+/-- the loop that reads command lines until the end of input (`read_eval_loop` without the evaluation) -/
+def parseLines (pc : CmdParser) : Nat → List Char → Option (List (List Item))
+  | 0, _ => none
+  | fuel + 1, cs =>
+    match parseCommandLine pc cs with
+    | none => none
+    | some (none, _) => some []
+    | some (some l, r) => (parseLines pc fuel r).map fun ls => l :: ls
+
+/-- one command line, nesting depth bounded by the input length -/
+def parseLine (cs : List Char) : Option (Option (List Item) × List Char) :=
+  parseCommandLine (parseCommand (cs.length + 2)) cs
+
+/-- a whole script read line by line, as the shell does -/
+def parseScript (cs : List Char) : Option (List (List Item)) :=
+  parseLines (parseCommand (cs.length + 2)) (cs.length + 2) cs
+
 end YashModel.Syntax
